@@ -77,6 +77,9 @@ SeqVEq(xs, ys, i) == i > Len(xs) \/ (VEq(xs[i], ys[i]) /\ SeqVEq(xs, ys, i+1))
 NumCmp(a, b) ==
   IF a.k = "int" /\ b.k = "int" THEN IntCmp(a.neg, a.mag, b.neg, b.mag)
   ELSE IF a.k = "float" /\ b.k = "float" /\ ~a.nan /\ ~b.nan THEN FloatCmp(a.bits, b.bits)
+  \* a float against a (small) integer: numerically
+  ELSE IF a.k = "float" /\ ~a.nan /\ b.k = "int" /\ IsSmallInt(b) THEN FloatCmp(a.bits, F64OfSmallInt(b.neg, b.mag))
+  ELSE IF a.k = "int" /\ IsSmallInt(a) /\ b.k = "float" /\ ~b.nan THEN FloatCmp(F64OfSmallInt(a.neg, a.mag), b.bits)
   ELSE 2
 
 \* ------------------------------------------------------------------ rules
@@ -312,7 +315,10 @@ M1(cx, R, t, v, vis) ==
 MT(cx, R, t, v, vis) == \E i \in 1..Len(t.alts) : M1(cx, R, t.alts[i], v, vis)
 
 Ctl(cx, R, t, v, vis) ==
-  CASE t.op \in {"and", "within"} -> M1(cx, R, t.t, v, vis) /\ M1(cx, R, t.arg, v, vis)
+  CASE t.op \in {"and", "within"} ->
+         \* deviation (loose): both operands are map types - the second map is validated with the keys the first one consumed
+         IF t.t.k = "map" /\ t.arg.k = "map" /\ "AndWithinMapOperands" \in cx.dev THEN cx.dv
+         ELSE M1(cx, R, t.t, v, vis) /\ M1(cx, R, t.arg, v, vis)
     [] t.op = "default" -> M1(cx, R, t.t, v, vis)
     [] t.op = "size" ->
          M1(cx, R, t.t, v, vis) /\
@@ -410,7 +416,7 @@ MapRep(cx, R, e, g, ps, frontier, n, acc) ==
 \* the first rule defines the data item (RFC 8610 section 2: "the first rule ... is the root")
 Root(R) == R[1]
 Accepts(cx, R, v) == Root(R).kind = "type" /\ MT(cx, R, InstType(R, Root(R).name, <<>>), v, {Root(R).name})
-LooseFlags == {"JsonTextLiteralVsObject", "GroupAlternatesFirstWins"}
+LooseFlags == {"JsonTextLiteralVsObject", "GroupAlternatesFirstWins", "AndWithinMapOperands"}
 Readings(fmt, dev) == {[md |-> m, ifl |-> i, fmt |-> fmt, dev |-> dev, dv |-> d] :
                           m \in {"E", "G"}, i \in (IF fmt = "json" THEN BOOLEAN ELSE {FALSE}),
                           d \in (IF dev \cap LooseFlags # {} THEN BOOLEAN ELSE {FALSE})}
